@@ -5,3 +5,5 @@ package actionlint
 func verifC15NativeCwd(cwd, arg string) {}
 
 func verifC15NativeCheck(src, pat string, viaConfig bool) {}
+
+func verifC15NativeMultiRepo(wf string, order int) {}
